@@ -704,3 +704,71 @@ def key_package_consistent(ctx, fn, kp_term, rule="CODEP", what="verifying_share
               "= %s, verifying share = %s" % (fmt(S)[:300], fmt(Y)[:300]), fn.loc,
               {"signing_share": fmt(S)[:300], "verifying_share": fmt(Y)[:300]})
     return ok
+
+
+# ---------------- two-armed values selected by a boolean predicate ----------------
+
+def pred_core(t):
+    """strip Into::into / Not wrappers of a boolean predicate term -> (core term, positive?)"""
+    pos = True
+    while isinstance(t, tuple) and t:
+        if is_call(t, name="into") and len(t[2]) == 1:
+            t = t[2][0]
+        elif is_call(t, name="not") and len(t[2]) == 1:
+            pos = not pos
+            t = t[2][0]
+        elif t[0] == "un" and t[1] == "Not":
+            pos = not pos
+            t = t[2]
+        else:
+            break
+    return t, pos
+
+
+def phi_arms(fn, v, local):
+    """For a local assigned once in each arm of a two-way boolean branch: -> (predicate core term, {True: term, False: term})
+    where the key is the truth value of the *core* predicate.  None if the shape is different."""
+    ds = [d for d in fn.defs().get(local, []) if d[0] in ("assign", "call")]
+    if len(ds) != 2:
+        return None
+    blocks = [d[1] for d in ds]
+    vals = []
+    for d in ds:
+        vals.append(v.cx.rvalue(d[3], (fn.key, d[1], d[2])) if d[0] == "assign" else v.cx.call(d[2], (fn.key, d[1])))
+    by_switch = {}
+    for (e, fa) in v.facts:
+        if fa[0] == "cond" and fa[1] == "other":
+            by_switch.setdefault(e[0], []).append((e, fa))
+    for sw, efs in by_switch.items():
+        if len(efs) != 2:
+            continue
+        (e1, f1), (e2, f2) = efs
+        r1, r2 = fn.reach(e1[1]), fn.reach(e2[1])
+        x1, x2 = r1 - r2, r2 - r1
+        for (ba, va), (bb_, vb) in (((blocks[0], vals[0]), (blocks[1], vals[1])), ((blocks[1], vals[1]), (blocks[0], vals[0]))):
+            if ba in x1 and bb_ in x2:
+                core, pos = pred_core(f1[2])
+                t1 = f1[4] if pos else not f1[4]
+                return core, {t1: va, (not t1): vb}
+    return None
+
+
+def local_of_operand(op):
+    p = op.get("move") or op.get("copy")
+    return p["l"] if p and not [e for e in p["p"] if e != "*"] else None
+
+
+def trace_local(fn, l, depth=6):
+    """follow plain copies / reborrows back to the local that has the interesting definitions"""
+    while depth > 0:
+        ds = [d for d in fn.defs().get(l, []) if d[0] == "assign"]
+        if len(fn.defs().get(l, [])) == 1 and ds and ds[0][3]["k"] in ("use", "ref"):
+            rv = ds[0][3]
+            p = rv["place"] if rv["k"] == "ref" else (rv["op"].get("move") or rv["op"].get("copy"))
+            if p is None or [e for e in p["p"] if e != "*"]:
+                return l
+            l = p["l"]
+            depth -= 1
+        else:
+            return l
+    return l
